@@ -413,4 +413,28 @@ MUTANTS = [
                         Err(())
                     }""",
       silent=True),
+    M("c04-no-rerun-after-singleton", ["C04"], "src/state/mod.rs",
+      "                // The substitution has been modified, re-run constraints.\n                self.run_constraints()",
+      "                // The substitution has been modified, re-run constraints.\n                Ok(self)",
+      {"C04": "extend-then-rerun"}),
+    M("c04-diseq-stage-noop", ["C04"], "src/state/mod.rs",
+      "    fn process_extension_diseq(self, _extension: &SMap<U, E>) -> SResult<U, E> {\n        self.run_constraints()",
+      "    fn process_extension_diseq(self, _extension: &SMap<U, E>) -> SResult<U, E> {\n        Ok(self)",
+      {"C04": "reruns"}),
+    M("c04-fallback-forgets", ["C04"], "src/relation/clpfd/ltefd.rs",
+      "                // the store waiting for the domains to be assigned later.\n                Ok(state.with_constraint(self))",
+      "                // the store waiting for the domains to be assigned later.\n                Ok(state)",
+      {"C04": "fallback-readds"}),
+    M("c04-fd-stage-no-rerun", ["C04"], "src/state/mod.rs",
+      "                        .remove_domain(x)?\n                        .run_constraints()?",
+      "                        .remove_domain(x)?",
+      {"C04": "bound-var-domain"}),
+    M("c04-new-unify-caller", ["C04"], "src/relation/eq.rs",
+      "        match state.unify(&self.u, &self.v) {",
+      "        match crate::state::unify_rec(state, &mut crate::state::SMap::new(), &self.u, &self.v) {",
+      {"C04": "calls-unify_rec"}),
+    M("c04-plusz-fallback-forgets", ["C19"], "src/relation/clpz/plusz.rs",
+      "                /* Not enough terms grounded to verify constraint. */\n                Ok(state.with_constraint(self))",
+      "                /* Not enough terms grounded to verify constraint. */\n                Ok(state)",
+      {"C19": "keeps="}),
 ]
